@@ -27,7 +27,7 @@ func genC14(r *Rng, tier string) *Plan {
 	if tier == "thorough" && r.Chance(1, 150) {
 		mix.RSA4096 = 2
 	}
-	g.AddForest(ForestOpts{MaxEnts: 4, MaxDepth: 3, Mix: mix, MaxExts: 1, Aliases: r.Bool(), Dirs: r.Chance(1, 3), KeyIDs: true, Validity: valRelative}, r.Chance(1, 4))
+	g.AddForest(ForestOpts{Bulk: 30, MaxEnts: 4, MaxDepth: 3, Mix: mix, MaxExts: 1, Aliases: r.Bool(), Dirs: r.Chance(1, 3), KeyIDs: true, Validity: valRelative}, r.Chance(1, 4))
 	fam := map[string]string{}
 	for _, e := range g.Ents {
 		fam[e.ID] = keyFamily(e.KeyAlg)
@@ -46,6 +46,10 @@ func genC14(r *Rng, tier string) *Plan {
 				Pad: Pick(r, []string{"fixed", "stripped", "extra"})}
 			if fam[e.ID] == "rsa" {
 				fp.P8 = Pick(r, []string{"null", "noparams"})
+			} else if fp.Pub && r.Chance(1, 2) {
+				// the optional public key inside ECPrivateKey as another tool may write it
+				// (openssl -conv_form compressed|hybrid)
+				fp.PubForm = Pick(r, []string{"compressed", "hybrid"})
 			}
 			if r.Chance(1, 3) {
 				// a complete foreign artifact with the key block first
@@ -55,7 +59,7 @@ func genC14(r *Rng, tier string) *Plan {
 				// certificate of a bundle counts as the entity's own is not something C14 decides)
 				fp.Parts, fp.Str = "cert+chain+key", "printable"
 			}
-			g.P.Add(Op{K: "replace-art", Ent: e.ID, Arg: fp.JSON(), Label: "foreign-key:" + fp.P8 + "/" + fp.Pad + fp.Order})
+			g.P.Add(Op{K: "replace-art", Ent: e.ID, Arg: fp.JSON(), Label: "foreign-key:" + fp.P8 + "/" + fp.Pad + fp.Order + fp.PubForm})
 			g.P.Meta["foreign-key"] = "1"
 		}
 	}
